@@ -487,6 +487,11 @@ func (bc *boundsCtx) rng(v ssa.Value, b *ssa.BasicBlock) irange {
 	if k, ok := intConst(v); ok {
 		return irange{lo: k, hi: k}
 	}
+	if _, isParam := strip(v).(*ssa.Parameter); isParam {
+		if k, ok := intConst(bc.norm(v)); ok {
+			return irange{lo: k, hi: k} // the argument at the helper's (selected) call site
+		}
+	}
 	if bt, ok := v.Type().Underlying().(*types.Basic); ok && bt.Info()&types.IsUnsigned != 0 {
 		r.lo = 0
 		switch bt.Kind() {
@@ -582,6 +587,9 @@ func (bc *boundsCtx) rng(v ssa.Value, b *ssa.BasicBlock) irange {
 				bb := bc.rng(x.Y, b)
 				if x.Op == token.ADD && a.lo != negInf && bb.lo != negInf {
 					r.lo = a.lo + bb.lo
+				}
+				if x.Op == token.ADD && a.hi != posInf && bb.hi != posInf {
+					r.hi = a.hi + bb.hi
 				}
 			}
 		}
@@ -732,6 +740,7 @@ type panicSite struct {
 	Expr  string
 	OK    bool
 	Why   string
+	KeyFn string // the function the obligation is stated in (the caller, for a helper analysed per call site)
 }
 
 // justification: reviewed sites that cannot be discharged by interval facts, keyed by
@@ -742,14 +751,44 @@ type justTable map[string]string
 // guard fails is not applied (the site stays undischarged).
 var justGuards = map[string]func(w *World, fn *ssa.Function, ins ssa.Instruction) bool{}
 
+// justShapes: justifications that hold for a shape of site wherever it stands (any function): a predicate over the
+// site decides, under the facts of the activation being analysed.
+type justShape struct {
+	why   string
+	holds func(w *World, fn *ssa.Function, ins ssa.Instruction, facts *Facts, root *ssa.Function) bool
+}
+
+var justShapes []justShape
+
 // BoundsObligations enumerates and tries to discharge every index / slice / type-assert obligation of fns.
 func (w *World) BoundsObligations(fns []*ssa.Function, just justTable) []panicSite {
 	var out []panicSite
 	for _, fn := range fns {
 		old := w.focus
 		root := w.soleEntry(fn, fns)
-		bc := &boundsCtx{w: w, fn: fn, root: root, facts: w.Facts(root)}
 		defer w.restoreFocus(old)
+		// a helper entered from several sites of its one caller: one set of obligations per activation, stated in
+		// the caller's terms
+		if sites := w.sitesIn(root, fn); root != fn && len(sites) > 1 && len(sites) <= 8 {
+			w.Focus(root)
+			for _, site := range sites {
+				w.Pin(root, fn, site, func(facts *Facts) {
+					bc := &boundsCtx{w: w, fn: fn, root: root, facts: facts}
+					out = append(out, bc.sitesOf(just, shortFn(site.Parent()))...)
+				})
+			}
+			continue
+		}
+		bc := &boundsCtx{w: w, fn: fn, root: root, facts: w.Facts(root)}
+		out = append(out, bc.sitesOf(just, shortFn(fn))...)
+	}
+	return out
+}
+
+func (bc *boundsCtx) sitesOf(just justTable, keyFn string) []panicSite {
+	w, fn := bc.w, bc.fn
+	var out []panicSite
+	{
 		for _, b := range fn.Blocks {
 			if !bc.facts.Reachable(b) {
 				continue
@@ -774,8 +813,13 @@ func (w *World) BoundsObligations(fns []*ssa.Function, just justTable) []panicSi
 					continue
 				}
 				if !site.OK {
-					key := shortFn(fn) + "|" + site.Kind + " " + site.Expr
-					if why, ok := just[key]; ok {
+					key := keyFn + "|" + site.Kind + " " + site.Expr
+					for _, sh := range justShapes {
+						if !site.OK && sh.holds(w, fn, ins, bc.facts, bc.root) {
+							site.OK, site.Why = true, "decided: "+sh.why
+						}
+					}
+					if why, ok := just[key]; ok && !site.OK {
 						// a justification that names a guard holds only while the guard is there
 						if g, has := justGuards[key]; has && !g(w, fn, ins) {
 							site.Why += " (the reviewed justification no longer applies: " + why + ")"
@@ -785,6 +829,7 @@ func (w *World) BoundsObligations(fns []*ssa.Function, just justTable) []panicSi
 						}
 					}
 				}
+				site.KeyFn = keyFn
 				out = append(out, *site)
 			}
 		}
@@ -1115,7 +1160,11 @@ func (w *World) JSONNullPointer(fns []*ssa.Function) []panicSite {
 func reportSites(c *Ctx, rule string, sites []panicSite) (n int) {
 	seen := map[string]int{}
 	for _, s := range sites {
-		key := shortFn(s.Fn) + "|" + s.Kind + " " + s.Expr
+		kf := shortFn(s.Fn)
+		if s.KeyFn != "" {
+			kf = s.KeyFn
+		}
+		key := kf + "|" + s.Kind + " " + s.Expr
 		seen[key]++
 		if seen[key] > 1 {
 			key += fmt.Sprintf(" #%d", seen[key])
